@@ -31,6 +31,8 @@ import (
 	"strings"
 )
 
+var builtinCallee = map[string]bool{"close": true, "panic": true, "print": true, "println": true, "delete": true, "copy": true, "recover": true, "clear": true}
+
 type insertion struct {
 	off  int
 	text string
@@ -289,20 +291,50 @@ func main() {
 			ins = append(ins, insertion{off: b, text: "\x00" + fmt.Sprint(e-b) + "\x00" + hdr, ord: 1 << 30})
 			return true
 		})
-		// `go func() { ... }()` becomes a child task of the simulator; other forms
-		// of the go statement are left alone (counted, reported)
+		// go statements become child tasks of the simulator. The function value
+		// and the arguments are evaluated by the parent at the go statement, as
+		// the language says: `go func(p T){B}(a)` becomes
+		// `verifGo(func(p T) func() { return func() {B} }(a))`; any other callee
+		// goes through a reflective helper, `verifGoCall(f, a, b)`. Built-in
+		// callees (`go close(ch)`) are left alone: they run no code of the tree.
 		ast.Inspect(f, func(n ast.Node) bool {
 			gs, ok := n.(*ast.GoStmt)
 			if !ok {
 				return true
 			}
 			goStmts++
-			if _, isLit := gs.Call.Fun.(*ast.FuncLit); isLit && len(gs.Call.Args) == 0 {
-				b := fset.Position(gs.Go).Offset
+			b := fset.Position(gs.Go).Offset
+			lp := fset.Position(gs.Call.Lparen).Offset
+			rp := fset.Position(gs.Call.Rparen).Offset
+			lit, isLit := gs.Call.Fun.(*ast.FuncLit)
+			switch {
+			case isLit && lit.Type.Results == nil && len(gs.Call.Args) == 0:
 				ins = append(ins, insertion{off: b, text: "\x002\x00verifGo(", ord: 1 << 30})
-				lp := fset.Position(gs.Call.Lparen).Offset
-				rp := fset.Position(gs.Call.Rparen).Offset
 				ins = append(ins, insertion{off: lp, text: "\x00" + fmt.Sprint(rp+1-lp) + "\x00)", ord: 1 << 30})
+				goRewrites++
+			case isLit && lit.Type.Results == nil:
+				ins = append(ins, insertion{off: b, text: "\x002\x00verifGo(", ord: 1 << 30})
+				ins = append(ins, insertion{off: fset.Position(lit.Body.Lbrace).Offset, text: " func() { return func() ", ord: -(1 << 30)})
+				ins = append(ins, insertion{off: fset.Position(lit.Body.Rbrace).Offset + 1, text: " }", ord: -(1 << 30)})
+				ins = append(ins, insertion{off: rp + 1, text: ")", ord: 1 << 30})
+				goRewrites++
+			default:
+				if id, isIdent := gs.Call.Fun.(*ast.Ident); isIdent && builtinCallee[id.Name] {
+					break
+				}
+				helper := "verifGoCall("
+				if gs.Call.Ellipsis.IsValid() {
+					helper = "verifGoCallSlice("
+				}
+				ins = append(ins, insertion{off: b, text: "\x002\x00" + helper, ord: 1 << 30})
+				if len(gs.Call.Args) == 0 {
+					ins = append(ins, insertion{off: lp, text: "\x00" + fmt.Sprint(rp+1-lp) + "\x00)", ord: 1 << 30})
+				} else {
+					ins = append(ins, insertion{off: lp, text: "\x001\x00, ", ord: 1 << 30})
+					if gs.Call.Ellipsis.IsValid() {
+						ins = append(ins, insertion{off: fset.Position(gs.Call.Ellipsis).Offset, text: "\x003\x00", ord: 1 << 30})
+					}
+				}
 				goRewrites++
 			}
 			return true
@@ -509,7 +541,9 @@ func blockingSimple(st ast.Stmt) bool {
 					found = true
 				case "len", "cap", "make", "new":
 				default:
-					simple = false
+					if !predeclaredType[f.Name] {
+						simple = false
+					}
 				}
 			case *ast.SelectorExpr:
 				switch f.Sel.Name {
@@ -525,6 +559,40 @@ func blockingSimple(st ast.Stmt) bool {
 		return true
 	})
 	return found && simple
+}
+
+var predeclaredType = map[string]bool{"int": true, "int8": true, "int16": true, "int32": true, "int64": true, "uint": true, "uint8": true, "uint16": true, "uint32": true, "uint64": true,
+	"uintptr": true, "byte": true, "rune": true, "string": true, "bool": true, "float32": true, "float64": true, "error": true}
+
+// selectSimple reports whether every communication of the select statement is
+// free of calls into the package (built-ins and conversions are fine): the task
+// may park in the Go runtime between the bracket's opening in front of the
+// statement and its closing at the head of whichever clause is chosen.
+func selectSimple(sel *ast.SelectStmt) bool {
+	simple := true
+	for _, c := range sel.Body.List {
+		cc, ok := c.(*ast.CommClause)
+		if !ok {
+			return false
+		}
+		if cc.Comm == nil {
+			continue
+		}
+		ast.Inspect(cc.Comm, func(x ast.Node) bool {
+			switch n := x.(type) {
+			case *ast.FuncLit:
+				simple = false
+				return false
+			case *ast.CallExpr:
+				f, isIdent := n.Fun.(*ast.Ident)
+				if !isIdent || !(predeclaredType[f.Name] || f.Name == "len" || f.Name == "cap" || f.Name == "make" || f.Name == "new") {
+					simple = false
+				}
+			}
+			return true
+		})
+	}
+	return simple
 }
 
 // firstSync: the statement list about to be instrumented is the body of an
@@ -555,6 +623,13 @@ func instrumentBody(fset *token.FileSet, file, fn string, body *ast.BlockStmt, a
 				blockWraps++
 				text += fmt.Sprintf("verifTok%d := verifBkEnter(); ", id)
 				add(st.End(), fmt.Sprintf("; verifBkLeave(verifTok%d)", id))
+			}
+			if sel, ok := st.(*ast.SelectStmt); ok && selectSimple(sel) {
+				blockWraps++
+				text += fmt.Sprintf("verifTok%d := verifBkEnter(); _ = verifTok%d; ", id, id)
+				for _, c := range sel.Body.List {
+					add(c.(*ast.CommClause).Colon+1, fmt.Sprintf(" verifBkLeave(verifTok%d); ", id))
+				}
 			}
 			add(st.Pos(), text)
 			// a statement that obtained a pointer into shared package state
@@ -666,7 +741,7 @@ func apply(src []byte, ins []insertion) []byte {
 
 func writeHooks(dir, pkg string) {
 	var b bytes.Buffer
-	fmt.Fprintf(&b, "//go:build verif\n\n// Code generated by /verif/sim/cmd/instr. DO NOT EDIT.\n\npackage %s\n\nimport (\n\t\"fmt\"\n\t\"sort\"\n\t\"unsafe\"\n)\n\n", pkg)
+	fmt.Fprintf(&b, "//go:build verif\n\n// Code generated by /verif/sim/cmd/instr. DO NOT EDIT.\n\npackage %s\n\nimport (\n\t\"fmt\"\n\t\"reflect\"\n\t\"sort\"\n\t\"unsafe\"\n)\n\n", pkg)
 	b.WriteString(`// VerifHook, when non-nil, is called at every yield point. It must be a
 // //go:norace function.
 var VerifHook func(site int32)
@@ -762,6 +837,41 @@ func verifGo(fn func()) {
 		return
 	}
 	go fn()
+}
+
+// verifGoCall is the go statement with a callee that is not a function literal:
+// callee and arguments have been evaluated by the parent; the call itself runs
+// in the child task. Untyped constant arguments arrive with their default type
+// and are converted to the parameter type, as the compiler would have done.
+func verifGoCall(f interface{}, args ...interface{})      { verifGoReflect(f, args, false) }
+func verifGoCallSlice(f interface{}, args ...interface{}) { verifGoReflect(f, args, true) }
+
+func verifGoReflect(f interface{}, args []interface{}, spread bool) {
+	fv := reflect.ValueOf(f)
+	ft := fv.Type()
+	in := make([]reflect.Value, len(args))
+	for i, a := range args {
+		pt := ft.In(ft.NumIn() - 1)
+		if i < ft.NumIn()-1 || !ft.IsVariadic() {
+			pt = ft.In(i)
+		} else if !(spread && i == len(args)-1) {
+			pt = pt.Elem()
+		}
+		v := reflect.ValueOf(a)
+		if !v.IsValid() {
+			v = reflect.Zero(pt)
+		} else if v.Type() != pt && pt.Kind() != reflect.Interface && v.Type().ConvertibleTo(pt) {
+			v = v.Convert(pt)
+		}
+		in[i] = v
+	}
+	verifGo(func() {
+		if spread {
+			fv.CallSlice(in)
+		} else {
+			fv.Call(in)
+		}
+	})
 }
 
 // VerifBkEnter / VerifBkLeave bracket simple statements that may park the task
